@@ -331,9 +331,14 @@ prop("C03",
                 "(decreasing measure) without recursion and never indexes an empty stack given the html element at the bottom "
                 "(proved, any depth); elementInScope returns (never reaches its assert False) on stacks starting with html "
                 "(bounded, up to 4 elements); every insertion-mode class has a handler for every token kind and complete "
-                "dispatch tables with defaults (ground); numeric character references of any length do not raise (C14 "
+                "dispatch tables with defaults (ground); every insertion-mode handler that can hand its token back to mainLoop for "
+                "reprocessing (48 handlers found in the AST; one excluded with its reason) does so only after changing the "
+                "insertion mode or shortening the stack of open elements -- no handler can make mainLoop spin on the same token in "
+                "the same state -- against an abstract parser/tree with uninterpreted scope tests, real delegate phases with their "
+                "dispatch tables, pop-until loops unrolled 3 times and three assumed mode invariants (bounded stand-in, not counted); "
+                "numeric character references of any length do not raise (C14 "
                 "contract of consumeNumberEntity, tagged C03); every parse-error code has a formattable message (C16).",
-     level_note="NOT decided: termination of mainLoop's reprocessing loops, the ~20 'assert self.parser.innerHTML' sites, the "
+     level_note="NOT decided: termination of mainLoop's reprocessing chains beyond the one-step progress above (no global measure), the ~20 'assert self.parser.innerHTML' sites, the "
                 "document skeleton invariant (one html root with head then body/frameset), recursion in the tree builders and "
                 "walkers on deep trees, bytes input. A change that makes a phase loop for ever or skip the implied body is NOT "
                 "noticed by this revision.",
